@@ -477,6 +477,21 @@ def main():
                     extra.setdefault('undecided', []).append({'message': 'Kani harness %s: %s' % (h, v['status']), 'fn': h, 'module': 'kani', 'kind': 'kani'})
             if not kr['harnesses']:
                 extra.setdefault('undecided', []).append({'message': 'Kani produced no result: ' + kr.get('tail', '')[-400:], 'fn': None, 'module': 'kani', 'kind': 'kani'})
+        # bounded cross-validation in the QUICK tier: the native oracles of the property (written from the property text, a few
+        # seconds each, one build) run against the current tree.  A failing input that replays on the real crate is a violation
+        # whatever Verus says (this is how finding F7 surfaced); "nothing found" is reported as bounded and never counted as proved.
+        native_sel = [h for h in pcfg.get('native_quick', [])]
+        if native_sel and not os.environ.get('VERIF_NO_NATIVE_ORACLES'):
+            import replay_search
+            try: nres = replay_search.native_batch(native_sel, timeout=int(os.environ.get('VERIF_REPLAY_TIMEOUT', '400')))
+            except Exception as e: nres = {h: {'status': 'search-error: %s' % e} for h in native_sel}
+            extra.setdefault('report', {})['native_oracles'] = {h: {k: v for k, v in r.items() if k in ('status', 'bound', 'wall_s', 'inputs', 'replay_output')} for h, r in nres.items()}
+            for h, r in sorted(nres.items()):
+                extra.setdefault('bounded', []).append({'harness': 'native:' + h, 'bound': r.get('bound', '?'), 'status': r.get('status'), 'counted_as_proved': False})
+                if r.get('status') == 'replayed-fails':
+                    extra.setdefault('fails', []).append({'kind': 'bounded-oracle', 'message': 'the native oracle %s fails on the real crate for a concrete input: %s' % (h, (r.get('replay_output') or '')[:300]),
+                        'fn': h, 'module': 'native-oracle', 'src': 'kani/replay_src/*_oracle.rs', 'line': 0, 'rendered': r.get('replay_output', ''), 'canary': None, 'labels': [],
+                        'obligation': 'bounded:native:' + h, 'props': [prop], 'clause': None, 'cmd': r.get('kani_cmd', ''), '_search': dict(r, harness=h)})
         if tier == 'thorough':
             import thorough
             ex2 = thorough.run(prop, pcfg, units, runs, seed, run_unit, Undecided)
